@@ -18,6 +18,7 @@ from __future__ import annotations
 
 import asyncio
 import asyncio.tasks
+import copy
 import logging
 import sys
 from asyncio import events, exceptions, futures
@@ -278,6 +279,22 @@ def uninstall() -> None:
     _installed = False
 
 
+_MISSING = object()
+
+
+def _plain(v, depth: int = 0) -> bool:
+    """Scalars and (nested) plain containers of scalars: state a codec object may accumulate (flags, caches)."""
+    if isinstance(v, (bool, int, float, str, bytes, type(None))):
+        return True
+    if depth > 4:
+        return False
+    if isinstance(v, (list, tuple, set, frozenset, bytearray)):
+        return all(_plain(x, depth + 1) for x in v)
+    if isinstance(v, dict):
+        return all(_plain(k, depth + 1) and _plain(x, depth + 1) for k, x in v.items())
+    return False
+
+
 _pristine: list = []  # (object, {attribute: scalar value}) for every codec object reachable from the two registries
 
 
@@ -308,7 +325,7 @@ def _snapshot_registries(pa) -> None:
         d = getattr(o, "__dict__", None)
         if d is None:
             return
-        _pristine.append((o, {k: v for k, v in d.items() if isinstance(v, (bool, int, float, str, bytes, type(None)))}))
+        _pristine.append((o, {k: copy.deepcopy(v) for k, v in d.items() if _plain(v)}, set(d)))
         for v in list(d.values()):
             walk(v, depth + 1)
 
@@ -322,10 +339,14 @@ def begin_run(order_fn, first_packet_id: int = 0) -> FakeSocketModule:
     pa = _mods()
     _order_fn = order_fn
     _snapshot_registries(pa)
-    for (o, scal) in _pristine:
-        for k, v in scal.items():
-            if getattr(o, k, None) is not v and getattr(o, k, None) != v:
-                object.__setattr__(o, k, v)
+    for (o, plain, names) in _pristine:
+        d = o.__dict__
+        for k in [k for k in d if k not in names]:
+            del d[k]  # an attribute that did not exist on the pristine object
+        for k, v in plain.items():
+            cur = d.get(k, _MISSING)
+            if cur is _MISSING or type(cur) is not type(v) or cur != v:
+                object.__setattr__(o, k, copy.deepcopy(v))
     for reg in (pa.at4.comms.registry.INSTANCE, pa.at5.comms.registry.INSTANCE):
         hf = reg.header_factory
         if not hasattr(hf, "_next_packet_id"):
